@@ -317,7 +317,7 @@ class ServerWorld:
     def headers(self, auth=True, extra=None):
         h = {}
         if auth and self.token is not None:
-            h["Authorization"] = "Bearer " + self.token
+            h["Authorization"] = "Bearer " + str(self.token)
         if extra:
             h.update(extra)
         return h
